@@ -80,6 +80,8 @@ const KINDS: [IoKind; 4] = [IoKind::NotFound, IoKind::PermissionDenied, IoKind::
 #[derive(Clone, Debug, Default)]
 struct Final {
     state: BTreeMap<String, String>,
+    /// values cached after each operation (fault-free run: the reference for containment)
+    snaps: Vec<BTreeMap<String, String>>,
     reads: u64,
     loader_calls: u64,
     fired: bool,
@@ -288,7 +290,61 @@ fn snapshot(cache: &AssetCache<SimSource>, w: &Work) -> BTreeMap<String, (String
     m
 }
 
+/// Archives over a reader that misbehaves *after* the archive was opened (short reads, EINTR, a hard error at the k-th
+/// operation): a load through a cache either fails or yields exactly the stored bytes, never a partly filled value,
+/// and nothing is cached by a failed load; the same load succeeds once the reader behaves.
+fn archives_over_faulty_reader(sel: u64) {
+    use super::c04::{build_tar, build_zip, ArcOpts, FsTree, RFault, SimReader};
+    use assets_manager::source::{Tar, Zip};
+    use crate::props::c03::PBytes;
+    let mut t = FsTree::default();
+    let contents: Vec<(String, Vec<u8>)> = (0..3).map(|i| (format!("f{i}"), (0..(700 + 1500 * i + (sel as usize % 97))).map(|j| (j % 251) as u8 + 1).collect())).collect();
+    for (id, data) in &contents {
+        t.add_file(id, "txt", data.clone());
+    }
+    let opts = ArcOpts { order: sel | 1, dir_members: sel % 2 == 0, dot_prefix: false, gnu: sel % 3 == 0, deflate: false };
+    let kind = [crate::world::IoKind::PermissionDenied, crate::world::IoKind::UnexpectedEof, crate::world::IoKind::Other][(sel % 3) as usize];
+    let fault = match sel % 4 {
+        0 => RFault::Short(1 + (sel % 300) as usize),
+        1 => RFault::HardAt(sel % 6, kind),
+        2 => RFault::Eintr(2 + sel % 3),
+        _ => RFault::Short(512),
+    };
+    fn run<S: assets_manager::source::Source + Send + Sync + 'static>(name: &str, src: S, ctl: super::c04::ReaderCtl, contents: &[(String, Vec<u8>)], fault: RFault) {
+        ctl.opened();
+        let cache = AssetCache::without_hot_reloading(src);
+        for round in 0..2 {
+            for (id, data) in contents {
+                match cache.load::<PBytes>(id) {
+                    Ok(h) => {
+                        let got = h.read().0.clone();
+                        detsim::check(got == *data, "C09/partial-value-from-archive", || format!("{name} over a reader with {fault:?}: load({id}) returned {} bytes that differ from the {} stored ones (first difference at {:?}; zero bytes in the result: {})", got.len(), data.len(), got.iter().zip(data.iter()).position(|(a, b)| a != b), got.iter().filter(|b| **b == 0).count()));
+                    }
+                    Err(e) => {
+                        detsim::check(ctl.fired() > 0, "C09/archive-load-fails-without-fault", || format!("{name}: load({id}) failed without an injected reader fault: {}", e.reason()));
+                        detsim::check(!cache.contains::<PBytes>(id), "C09/failed-load-cached-something", || format!("{name}: load({id}) failed but the key is cached"));
+                        detsim::check(round == 0 || !matches!(fault, RFault::HardAt(..)), "C09/no-recovery-after-repair", || format!("{name}: load({id}) still fails after the one-shot reader fault: {}", e.reason()));
+                        detsim::count("reach.archive_load_failed_on_reader_fault");
+                    }
+                }
+            }
+        }
+        if ctl.fired() > 0 {
+            detsim::count("reach.archive_read_under_reader_fault");
+        }
+    }
+    let (r, ctl) = SimReader::with_fault(build_tar(&t, &opts), fault);
+    if let Ok(tar) = Tar::from_reader(r) {
+        run("tar", tar, ctl, &contents, fault);
+    }
+    let (r, ctl) = SimReader::with_fault(build_zip(&t, &opts), fault);
+    if let Ok(zip) = Zip::from_reader(r) {
+        run("zip", zip, ctl, &contents, fault);
+    }
+}
+
 fn scenario(w: Work, pos: Option<Pos>, expect: Option<Final>, fin: Shared<Final>) {
+
     let mut tree = Tree::default();
     for k in 0..w.nleaves {
         if w.ext_a[k] {
@@ -389,6 +445,34 @@ fn scenario(w: Work, pos: Option<Pos>, expect: Option<Final>, fin: Shared<Final>
         // (directory listings own no tracked value)
         let with_value = after.keys().filter(|k| !k.starts_with("Dir") && !k.starts_with("RDir")).count();
         detsim::check(live.len() == with_value, "C09/partial-value-or-leak", || format!("after op {oi} {op:?} ({res:?}): {} tracked values are alive but {} entries are cached: live {live:?}, cached {:?}", live.len(), after.len(), after.keys().collect::<Vec<_>>()));
+        fin.lock().unwrap().snaps.push(after.iter().map(|(k, v)| (k.clone(), v.0.clone())).collect());
+        if hit_here && *op == Op::HotReload {
+            // containment: one fault makes one load fail. Compared with the fault-free run at the same point, only that
+            // asset and the compounds that (transitively) look at its id may differ; every other asset notified for
+            // this pass must have been reloaded all the same.
+            if let Some(reference) = expect.as_ref().and_then(|e| e.snaps.get(oi)) {
+                let differ: Vec<&String> = after.iter().filter(|(k, v)| reference.get(*k) != Some(&v.0)).map(|(k, _)| k).collect();
+                let id_of = |k: &str| k.split_once(' ').map(|x| x.1.trim_matches('"').to_string()).unwrap_or_default();
+                fn nest_sees(w: &Work, n: usize, x: &str, depth: usize) -> bool {
+                    depth < 8 && w.nests.get(n).map(|ents| ents.iter().any(|e| match e.split_once(':') {
+                        Some((_, what)) => what == x,
+                        None => e == x || e.strip_prefix('n').and_then(|m| m.parse::<usize>().ok()).map(|m| nest_sees(w, m, x, depth + 1)).unwrap_or(false),
+                    })).unwrap_or(false)
+                }
+                let explained = differ.is_empty() || differ.iter().any(|root| {
+                    let x = id_of(root);
+                    differ.iter().all(|k| k == root || match k.split_once(' ') {
+                        Some(("Nest", n)) => n.strip_prefix('n').and_then(|m| m.parse::<usize>().ok()).map(|m| nest_sees(&w, m, &x, 0)).unwrap_or(false),
+                        Some((t, _)) if t.starts_with("RDir") || t.starts_with("Dir") => true,
+                        _ => false,
+                    })
+                });
+                detsim::check(explained, "C09/fault-not-contained", || format!("hot_reload (op {oi}) with one injected fault {pos:?}: compared with the fault-free run at this point these entries differ: {differ:?}; one failed load explains one asset and the compounds that look at it, not all of these (cache {after:?}, fault-free {reference:?})"));
+                if differ.len() >= 1 && after.len() >= 3 {
+                    detsim::count("reach.fault_in_a_pass_with_other_reloads");
+                }
+            }
+        }
         if hit_here {
             let on_reloader = *op == Op::HotReload;
             let mut f = fin.lock().unwrap();
@@ -438,6 +522,11 @@ fn scenario(w: Work, pos: Option<Pos>, expect: Option<Final>, fin: Shared<Final>
     f.state = state;
     drop(f);
     drop(cache);
+    if pos.is_none() {
+        // once per sampled scenario, at the very end of the dry run: the dry run and the faulted runs must share their
+        // schedule up to the fault (the number of reads of a history depends on when the reloader sees a notification)
+        archives_over_faulty_reader(fnv(serde_json::to_string(&w).unwrap().as_bytes()) >> 8);
+    }
     let live = ledger::live();
     detsim::check(live.is_empty(), "C09/leak-after-drop", || format!("still alive after the cache was dropped: {live:?}"));
 }
